@@ -648,7 +648,15 @@ fn gen_prior(t: &mut Tape, v: &Value) -> Prior {
     while t.more(fields.len(), 0, 6, 3, 4) {
         let comment = if t.chance(1, 4) { Some(format!("# comment {}", fields.len())) } else { None };
         let ws = t.pick(&[" ", "", "   ", "\t"]).to_string();
-        if t.chance(1, 2) {
+        if t.chance(1, 6) {
+            // a field whose name differs from one of the struct's keys only in letter case: names are compared exactly by
+            // both paragraph types, so this is a foreign field (placed before or after the real key as the tape decides)
+            let k = t.pick(&own).to_string();
+            let variant = if t.flag() { k.to_lowercase() } else { k.to_uppercase() };
+            if variant != k && fields.iter().all(|f| f.0 != variant) {
+                fields.push((variant, vec![format!("case variant {}", fields.len())], ws, comment));
+            }
+        } else if t.chance(1, 2) {
             n_foreign += 1;
             let mut lines = vec![format!("foreign value {}", n_foreign)];
             if t.chance(1, 3) {
@@ -753,6 +761,7 @@ impl PropImpl for C16 {
                 let n_all = all_keys(v).len();
                 ctx.label_if(prior.fields.iter().any(|f| f.0.starts_with("X-Foreign")), "update:prior-has-foreign-fields");
                 ctx.label_if(prior.fields.iter().any(|f| f.3.is_some()), "update:prior-has-comments");
+                ctx.label_if(prior.fields.iter().any(|f| !all_keys(v).contains(&f.0.as_str()) && all_keys(v).iter().any(|k| k.eq_ignore_ascii_case(&f.0))), "update:prior-has-case-variant-of-own-field");
                 ctx.label_if(prior.fields.iter().any(|f| all_keys(v).contains(&f.0.as_str())), "update:prior-has-stale-own-fields");
                 match broken {
                     Some((_, None)) => ctx.label("error:missing-mandatory"),
